@@ -96,6 +96,9 @@ pub fn form_groups(name: &str, same_operand: bool) -> Vec<Vec<u16>> {
         ("r" | "x", "diveuclid") => r(3),
         ("m", "udr" | "idr") => r(8),
         ("m", "rop" | "reduce") => r(6),
+        ("u" | "i", "nint") => r(6),
+        ("u", "big") => r(20),
+        ("u", "ochunks") => r(2),
         ("f" | "d" | "r" | "x", "asint") => r(8),
         ("u" | "i" | "f" | "r" | "x", "asf") => vec![vec![0, 1], vec![2, 3]],
         _ => Vec::new(),
